@@ -6,7 +6,9 @@ RULE = ("the whole Schnorr proof space (public, commitment, challenge, response)
         "per backend and label; a CP slice of the 11^6 space) decided by the implementation and by the Gallina verifier that "
         "hashes the complete transcript itself; adversarial families at 16/62/2048 bits: single-field mutations of honest "
         "proofs (each element/exponent replaced by neighbour, identity, generator), simulated transcripts with chosen "
-        "challenge, one-equation CP proofs, statement/label/base swaps; accepted mutants are failing inputs at >=62 bits")
+        "challenge, one-equation CP proofs, statement/label/base swaps, hash-consistent proofs of false statements made by "
+        "the stock prover (publics perturbed so that weighted products of the two CP equations still balance, or one "
+        "public alone); accepted mutants are failing inputs at >=62 bits")
 
 
 def run(env):
@@ -104,6 +106,41 @@ def run(env):
             add("popk_verify", [a[1], a[2], pf, a[3]], "honest", False)
             add("popk_verify", [str((int(a[1]) * g_) % P_), a[2], pf, a[3]], "mut-mhr")
             add("popk_verify", [a[1], a[2], pf, a[3] + "01"], "mut-label")
+    # hash-consistent proofs of FALSE statements made by the stock prover (it hashes whatever statement it is given):
+    # only the verification equations can reject them. Publics perturbed so that a weighted product
+    # lhs1^alpha * lhs2^beta of the two CP equations still balances (catches "folded" / single-equation verifiers),
+    # and each public perturbed alone.
+    stf = []
+    for pstr, n in [("65267", 2 if env.quick else 10), (str(P62), 3 if env.quick else 20), ("2048", 1 if env.quick else 3)]:
+        for fl in "BM":
+            ctx = "%s:%s" % (fl, pstr)
+            P_, q_, g_ = pq(ctx)
+            fams = [(1, 1), (1, q_ - 1), (2, 1), (1, 2), (3, 5), (1, 0), (0, 1)]
+            if pstr == "2048" and env.quick:
+                fams = [fams[r.randrange(2)], fams[5 + r.randrange(2)]]
+            for _ in range(n):
+                for (al, be) in fams:
+                    x = r.randrange(q_); lab = hexb(r.randbytes(r.choice([0, 4])))
+                    g2 = rnd_member(r, ctx); d = rnd_member(r, ctx)
+                    while d == 1:
+                        d = rnd_member(r, ctx)
+                    if (al, be) == (1, 0):
+                        d1, d2 = d, 1
+                    elif (al, be) == (0, 1):
+                        d1, d2 = 1, d
+                    else:
+                        d1 = pow(d, be, P_); d2 = pow(d, (q_ - al) % q_, P_)
+                    y1 = (pow(g_, x, P_) * d1) % P_; y2 = (pow(g2, x, P_) * d2) % P_
+                    stf.append({"ctx": ctx, "op": "cp_prove", "args": [str(x), str(y1), str(y2), None, str(g2), lab, script(r, 1024)],
+                                "tag": "false-statement-prover", "_fam": (al, be)})
+    of = env.harness(stf)
+    for c, o in zip(stf, of):
+        if not isinstance(o, list):
+            continue
+        ctx = c["ctx"]; a = c["args"]
+        big = True if ctx.endswith(":2048") else int(ctx.split(":")[1]) > 2 ** 60
+        st2.append({"ctx": ctx, "op": "cp_verify", "args": [a[1], a[2], a[3], a[4], o[0], a[5]],
+                    "tag": "false-statement(%s,%s)" % ("a" if c["_fam"][0] else "0", "b" if c["_fam"][1] else "0"), "_must_reject": big, "_src": c})
     if env.quick:
         # 2048-bit model evaluations cost seconds each: keep a deterministic sample of the mutants there
         keep = []
